@@ -456,6 +456,14 @@ func (c *Cluster) deliver(from int, target string, kind string, args interface{}
 		return nil, fmt.Errorf("harness transport: %s response lost", kind)
 	}
 	out := r.Response
+	if o, ok := out.(*net.FastForwardResponse); ok && o != nil && !c.Cfg.JSONWire {
+		// A fast-forward response is always passed through the wire encoding: delivered by
+		// reference, the reset node would share the serving node's peer-set slices (frame.Peers and
+		// frame.PeerSets alias each other inside the server), which no real transport does.
+		var cp net.FastForwardResponse
+		jsonCopy(o, &cp)
+		out = &cp
+	}
 	if c.Cfg.JSONWire && out != nil {
 		switch o := out.(type) {
 		case *net.SyncResponse:
